@@ -353,3 +353,75 @@ def dqn_routing_case(gamma: float, seed: int) -> dict:
              "ReturnedNetworkIsTheConfiguredOptimisersStepOnThatObjective": _same_tree(new_policy, expect, grads),
              "DiscountMattersOnThisBatch": bool(abs(float(other) - float(loss)) > 1e-3)}
     return dict(ev="identity", kind=f"configured:DQN:gamma={gamma}", atoms=atoms, approx_kl=0.0)
+
+
+# ------------------------------------------------------------------------------------------------ what iteration() carries
+def _float_leaves(t):
+    return [np.asarray(x) for x in jax.tree.leaves(eqx.filter(t, eqx.is_inexact_array))]
+
+
+def _int_leaves(t):
+    return [np.asarray(x) for x in jax.tree.leaves(eqx.filter(t, eqx.is_array)) if np.issubdtype(np.asarray(x).dtype, np.integer)]
+
+
+def carried_state_case(algo_name: str, seed: int) -> dict:
+    """Two real iterations of an on-policy learner: the optimiser state that training returns is the one the next iteration starts
+    from ("updates are applied through the configured optimiser": Adam's moments and step count belong to it), and the policy the
+    iteration returns is the one training returned."""
+    N, T = 2, 8
+    env = MaskedChain(False)
+    k0, k1, k2, k3 = jr.split(jr.key(seed), 4)
+    policy = StatefulMaskedPolicy(env, k0, True)
+    algo = _algo(algo_name, N, T)
+    cb = Recorder()
+    s0 = _reset(algo, env, policy, k1, cb)
+    s1 = _iteration(algo, s0, k2, cb)
+    s2 = _iteration(algo, s1, k3, cb)
+    buf1 = s1.callback_state.log["buffer"]
+    _, opt_expect, _ = eqx.filter_jit(lambda a, p, o, b, k: a.train(p, o, b, key=k))(algo, s0.policy, s0.opt_state, buf1, jr.key(0))
+    close = lambda A, B: len(A) == len(B) and all(a.shape == b.shape and np.allclose(a, b, rtol=1e-3, atol=1e-6) for a, b in zip(A, B))
+    c0, c1, c2 = _int_leaves(s0.opt_state), _int_leaves(s1.opt_state), _int_leaves(s2.opt_state)
+    moved = any(float(np.max(np.abs(x))) > 0 for x in _float_leaves(s1.opt_state))
+    atoms = {"OptimiserStateAfterAnIterationIsTheOneTrainingReturned": close(_float_leaves(s1.opt_state), _float_leaves(opt_expect)) and moved,
+             "OptimiserStepCountAdvancesWithEveryIteration": bool(c0 and all(int(b.max()) == int(a.max()) + 1 for a, b in zip(c0, c1))
+                                                                  and all(int(b.max()) == int(a.max()) + 1 for a, b in zip(c1, c2))),
+             "PolicyChangesWithEveryIteration": bool(not close(_float_leaves(s0.policy), _float_leaves(s1.policy))
+                                                     and not close(_float_leaves(s1.policy), _float_leaves(s2.policy)))}
+    return dict(ev="identity", kind=f"carried:{algo_name}", atoms=atoms, approx_kl=0.0)
+
+
+def target_dependence_case(kind: str, seed: int) -> dict:
+    """The update a real iteration() performs bootstraps from the TARGET network(s) of the algorithm state: with the same key (same
+    collected data, same batch) but a different target in the state, the updated online network must differ - and with the target
+    set equal to what it was, it must not."""
+    from lerax.algorithm import DQN, SAC
+    from lerax.policy import MLPQPolicy, MLPSACPolicy
+    from .drive_schedule import _algo as sched_algo, box_env, disc_env
+    k0, k1, k2, k3 = jr.split(jr.key(seed), 4)
+    noise = lambda tree, k: jax.tree.map(lambda x: x + 0.5 * jr.normal(k, x.shape, x.dtype) if eqx.is_inexact_array(x) else x, tree)
+    if kind == "DQN":
+        from lerax.env.classic_control import CartPole
+        env = CartPole()            # no episode ends within the 8 collected steps: every sampled row bootstraps
+        policy = MLPQPolicy(env=env, width_size=8, depth=1, key=k0)
+        algo = sched_algo("DQN", buffer_size=64, learning_starts=6, num_envs=1, num_steps=2, batch_size=6, target_update_interval=50,
+                          learning_rate=1e-2, gamma=0.9)
+        cb = algo.consolidate_callbacks(None)
+        s0 = _reset(algo, env, policy, k1, cb)
+        sT = eqx.tree_at(lambda s: s.target_policy, s0, noise(s0.target_policy, k3))
+        online = lambda s: (s.policy, s.opt_state)      # Adam's first step is lr * sign(g): the moments in the optimiser state carry g itself
+    else:
+        env = box_env()
+        policy = MLPSACPolicy(env, feature_size=8, width_size=8, depth=1, key=k0)
+        algo = sched_algo("SAC", buffer_size=64, learning_starts=6, num_envs=1, num_steps=1, batch_size=6, tau=0.25, policy_frequency=1,
+                          autotune=False, q_width_size=8, q_depth=1, policy_lr=1e-2, q_lr=1e-2, gamma=0.9)
+        cb = algo.consolidate_callbacks(None)
+        s0 = _reset(algo, env, policy, k1, cb)
+        sT = eqx.tree_at(lambda s: (s.qf1_target, s.qf2_target), s0, (noise(s0.qf1_target, k3), noise(s0.qf2_target, jr.fold_in(k3, 1))))
+        online = lambda s: (s.qf1, s.qf2, s.q_opt_state)
+    a, a2, b = _iteration(algo, s0, k2, cb), _iteration(algo, s0, k2, cb), _iteration(algo, sT, k2, cb)
+    # equal entries (among them the infinite bounds of an observation space stored in the policy) count as distance 0
+    diff = lambda x, y: max(float(np.max(np.where(p == q, 0.0, np.abs(np.where(np.isfinite(p), p, 0.0) - np.where(np.isfinite(q), q, 0.0)))))
+                            for p, q in zip(_float_leaves(online(x)), _float_leaves(online(y))))
+    atoms = {"SameStateAndKeyGiveTheSameUpdate": bool(diff(a, a2) == 0.0),
+             "TrainingInsideIterationBootstrapsFromTheTargetNetworkOfTheState": bool(diff(a, b) > 1e-6)}
+    return dict(ev="identity", kind=f"target_dependence:{kind}", atoms=atoms, approx_kl=0.0)
